@@ -51,7 +51,6 @@ import (
 	"go/types"
 	"log"
 	"os"
-	"reflect"
 	"runtime"
 	"slices"
 	"sync/atomic"
@@ -276,7 +275,7 @@ func visitInstr(fr *frame, instr ssa.Instruction) continuation {
 		panic(targetPanic{fr.get(instr.X)})
 
 	case *ssa.Send:
-		fr.get(instr.Chan).(chan value) <- fr.get(instr.X)
+		fr.get(instr.Chan).(*mchan).send(fr.get(instr.X))
 
 	case *ssa.Store:
 		store(typeparams.MustDeref(instr.Addr.Type()), fr.get(instr.Addr).(*value), fr.get(instr.Val))
@@ -324,7 +323,7 @@ func visitInstr(fr *frame, instr ssa.Instruction) continuation {
 		}
 
 	case *ssa.MakeChan:
-		fr.env[instr] = make(chan value, asInt64(fr.get(instr.Size)))
+		fr.env[instr] = &mchan{capacity: int(asInt64(fr.get(instr.Size)))}
 
 	case *ssa.Alloc:
 		var addr *value
@@ -457,40 +456,38 @@ func visitInstr(fr *frame, instr ssa.Instruction) continuation {
 		log.Fatal("unreachable") // phis are processed at block entry
 
 	case *ssa.Select:
-		var cases []reflect.SelectCase
-		if !instr.Blocking {
-			cases = append(cases, reflect.SelectCase{
-				Dir: reflect.SelectDefault,
-			})
-		}
-		for _, state := range instr.States {
-			var dir reflect.SelectDir
-			if state.Dir == types.RecvOnly {
-				dir = reflect.SelectRecv
+		// run-to-completion goroutine model: the first ready case in source
+		// order is taken; a blocking select with no ready case is a deadlock
+		// under this model and ends the path as unsupported.
+		chosen := -1
+		var recv value
+		recvOk := false
+		for k, st := range instr.States {
+			ch, _ := fr.get(st.Chan).(*mchan)
+			if ch == nil {
+				continue // nil channel: never ready
+			}
+			if st.Dir == types.RecvOnly {
+				if len(ch.buf) > 0 || ch.closed {
+					chosen = k
+					recv, recvOk = ch.recv()
+					break
+				}
 			} else {
-				dir = reflect.SelectSend
+				chosen = k
+				ch.send(fr.get(st.Send))
+				break
 			}
-			var send reflect.Value
-			if state.Send != nil {
-				send = reflect.ValueOf(fr.get(state.Send))
-			}
-			cases = append(cases, reflect.SelectCase{
-				Dir:  dir,
-				Chan: reflect.ValueOf(fr.get(state.Chan)),
-				Send: send,
-			})
 		}
-		chosen, recv, recvOk := reflect.Select(cases)
-		if !instr.Blocking {
-			chosen-- // default case should have index -1.
+		if chosen < 0 && instr.Blocking {
+			unsupported("select would block forever under the run-to-completion goroutine model at %s", fr.i.prog.Fset.Position(instr.Pos()))
 		}
 		r := tuple{chosen, recvOk}
-		for i, st := range instr.States {
+		for k, st := range instr.States {
 			if st.Dir == types.RecvOnly {
 				var v value
-				if i == chosen && recvOk {
-					// No need to copy since send makes an unaliased copy.
-					v = recv.Interface().(value)
+				if k == chosen && recvOk {
+					v = recv
 				} else {
 					v = zero(st.Chan.Type().Underlying().(*types.Chan).Elem())
 				}
